@@ -64,13 +64,20 @@ class TagSpace:
         return self.sym[int(tag)]
 
 
-def verts(ts, k):
-    """k vertices -> flat list of 2k tags, and the list of (x, y) symbol pairs"""
+CLOSED = {'ring', 'polygon', 'multipolygon'}
+
+
+def verts(ts, k, closed=False):
+    """k distinct vertices -> flat list of tags and the list of (x, y) symbol pairs; closed: the first vertex is
+    repeated at the end (same tags, hence the same symbols), the representation invariant of rings"""
     flat, pts = [], []
     for _ in range(k):
         tx, ty = ts.fresh(), ts.fresh()
         flat += [tx, ty]
         pts.append((ts.symbol(tx), ts.symbol(ty)))
+    if closed and k:
+        flat += flat[:2]
+        pts.append(pts[0])
     return flat, pts
 
 
@@ -84,13 +91,14 @@ def build_element(ts, kind, spec):
     if kind == 'point':
         flat, pts = verts(ts, 1)
         return flat, pts[0]
+    closed = kind in CLOSED
     if NEST[kind] == 1:
-        flat, pts = verts(ts, spec)
+        flat, pts = verts(ts, spec, closed)
         return flat, pts
     if NEST[kind] == 2:
         val, sym = [], []
         for k in spec:
-            flat, pts = verts(ts, k)
+            flat, pts = verts(ts, k, closed)
             val.append(flat)
             sym.append(pts)
         return val, sym
@@ -98,7 +106,7 @@ def build_element(ts, kind, spec):
     for part in spec:
         pv, psym = [], []
         for k in part:
-            flat, pts = verts(ts, k)
+            flat, pts = verts(ts, k, closed)
             pv.append(flat)
             psym.append(pts)
         val.append(pv)
